@@ -1,4 +1,5 @@
 import Cirbo.Model.Mutate2
+import Cirbo.Model.Miter
 /-!
 # Model of the five wrappers around `connect_circuit`
 `connect_left`, `connect_right`, `connect_inputs`, `extend_circuit`, `add_circuit` — each is the call of
@@ -29,6 +30,30 @@ def extendCircuit (c other : Circuit) (thisC otherC : Option (List Label)) (righ
 /-- `add_circuit(other, name=, add_prefix=)` -/
 def addCircuit (c other : Circuit) (name : Label) (addP : Bool) : R Circuit :=
   c.connectCircuit other [] [] false name addP
+
+/-- one gate of `Block.into_circuit`: `new._emplace_gate(owner.get_gate(label))` -/
+def intoStep (c : Circuit) (acc : R Circuit) (l : Label) : R Circuit :=
+  match acc with
+  | .error e => .error e
+  | .ok n => match c.find? l with
+    | none => .error "GateDoesntExistError"
+    | some g => .ok (n.rawAddGate g)
+
+/-- `Block.into_circuit()`: the block's inputs as INPUT gates, then the block's gates copied from the
+owner (`_emplace_gate`: no existence checks while adding), `set_outputs`, then every operand must exist -/
+def intoCircuit (c : Circuit) (b : Block) : R Circuit :=
+  let c1 := b.inputs.foldl (fun n i => n.rawAddGate ⟨i, GateType.INPUT, []⟩) Circuit.empty
+  match b.gates.foldl (intoStep c) (.ok c1) with
+  | .error e => .error e
+  | .ok c2 => match c2.setOutputs b.outputs with
+    | .error e => .error e
+    | .ok c3 => if c3.gates.all (fun g => g.ops.all c3.hasGate) then .ok c3 else .error "CircuitValidationError"
+
+/-- `circuit.get_block(name).into_circuit()` -/
+def blockIntoCircuit (c : Circuit) (name : Label) : R Circuit :=
+  match c.getBlock name with
+  | .error e => .error e
+  | .ok b => c.intoCircuit b
 
 end Circuit
 end Cirbo
